@@ -307,7 +307,11 @@ class ModelCacheMixin:
     def batch_eval(self, asts, n, extra_constraints=(), exact=None):
         results = self._get_batch_solutions(asts, n=n, extra_constraints=extra_constraints)
 
-        if len(results) == n or (len(asts) == 1 and asts[0].hash() in self._eval_exhausted):
+        # the cached models contain every value of an eval-exhausted expression, but not every model: with extra
+        # constraints a value may only be feasible through a model that is not cached
+        if len(results) == n or (
+            len(asts) == 1 and len(extra_constraints) == 0 and asts[0].hash() in self._eval_exhausted
+        ):
             return results
 
         remaining = n - len(results)
